@@ -97,7 +97,13 @@ JudgeOk(r) ==
                         sites[i].id = p[1] /\ sites[i].en /\ sites[i].dst = p[2]}
       alld == SetOfSeq(dcfg.alldsts)
       strayNames == IF modified /\ ~r.in_mentions_ns THEN NamespaceRefs(rout) \ alld ELSE {}
-      whys == {marks[i].hw : i \in 1..Len(marks)} \ {""}
+      \* D7b is the listed finding only where the plus operator is DISABLED; an omitted sum operand under an
+      \* enabled plus operator is a different failure of the same property
+      whys0 == {marks[i].hw : i \in 1..Len(marks)} \ {""}
+      D7bWhy == "dev:D7b-nonconstant-sum-operand-omitted"
+      whys == IF dcfg.plus # "" /\ D7bWhy \in whys0
+              THEN (whys0 \ {D7bWhy}) \cup {"a non-constant sum operand is omitted from the hook arguments although the plus operator is enabled"}
+              ELSE whys0
       nhooks == Len(marks)                  \* hook call sites actually present in the output
       hookedTags == {sites[i].tag : i \in {j \in siteIdx : sites[j].id \in hookedIds}}
       tagCount(tag) == Cardinality({i \in siteIdx : sites[i].id \in hookedIds /\ sites[i].tag = tag})
